@@ -33,6 +33,7 @@ type Job struct {
 	Helper   string       `json:"helper"`
 	WorkRoot string       `json:"work_root,omitempty"`
 	Deadline *DeadlineJob `json:"deadline,omitempty"`
+	Clean    *CleanJob    `json:"clean,omitempty"`
 	Out      string       `json:"out"`
 	// Gated: the harness decides the interleaving.  Every script line is preceded by a `gate`
 	// command; a subtest runs only while it holds the turn, from one gate (or from Parallel) to the
@@ -46,6 +47,9 @@ type ProbeObs struct {
 	Cwd  string   `json:"cwd"`
 	Env  []string `json:"env"`
 	Tree string   `json:"tree"`
+	// Modes: the permission bits of every entry of the work directory (not known to the model; compared
+	// between the run in the batch and the run alone)
+	Modes string `json:"modes,omitempty"`
 }
 
 type BgObs struct {
@@ -54,21 +58,22 @@ type BgObs struct {
 }
 
 type ScriptObs struct {
-	Name      string     `json:"name"`
-	Workdir   string     `json:"workdir"`
-	Verdict   string     `json:"verdict"`
-	Regs      []int      `json:"regs"`
-	Runs      []int      `json:"runs"`
-	Bg        []BgObs    `json:"bg"`
-	HaveSetup bool       `json:"have_setup"`
-	RootIno   uint64     `json:"root_ino,omitempty"` // inode of the shared root at Setup (the directory is kept open, so the number cannot be reused)
-	SetupEnv  []string   `json:"setup_env"`
-	SetupTree string     `json:"setup_tree"`
-	Probes    []ProbeObs `json:"probes"`
-	Log       string     `json:"log"`
-	Panic     string     `json:"panic,omitempty"`
-	StartNs   int64      `json:"start_ns"`
-	EndNs     int64      `json:"end_ns"`
+	Name       string     `json:"name"`
+	Workdir    string     `json:"workdir"`
+	Verdict    string     `json:"verdict"`
+	Regs       []int      `json:"regs"`
+	Runs       []int      `json:"runs"`
+	Bg         []BgObs    `json:"bg"`
+	HaveSetup  bool       `json:"have_setup"`
+	RootIno    uint64     `json:"root_ino,omitempty"` // inode of the shared root at Setup (the directory is kept open, so the number cannot be reused)
+	SetupEnv   []string   `json:"setup_env"`
+	SetupTree  string     `json:"setup_tree"`
+	SetupModes string     `json:"setup_modes,omitempty"`
+	Probes     []ProbeObs `json:"probes"`
+	Log        string     `json:"log"`
+	Panic      string     `json:"panic,omitempty"`
+	StartNs    int64      `json:"start_ns"`
+	EndNs      int64      `json:"end_ns"`
 }
 
 type ChildResult struct {
@@ -79,6 +84,12 @@ type ChildResult struct {
 	Error     string       `json:"error,omitempty"`
 	RootFatal string       `json:"root_fatal,omitempty"`
 	Names     []string     `json:"names"` // the names RunT gave the subtests, in the order of Params.Files
+	// Prior: the RunT calls the process made before this one (deadline jobs with a history)
+	Prior []*ChildResult `json:"prior,omitempty"`
+	// SiblingSnap: clean-up jobs: the sibling's work directory as it was after the script under test had
+	// been cleaned up ("rel kind perm data|target" per entry), and whether it was taken at all
+	SiblingSnap []string `json:"sibling_snap,omitempty"`
+	SiblingSeen bool     `json:"sibling_seen,omitempty"`
 }
 
 // ---------------------------------------------------------------- recording T
@@ -307,8 +318,11 @@ func (c *collector) get(name string) *ScriptObs {
 }
 
 // treeString lists what is below dir: "rel:kind" sorted; kind d (directory), D (directory without
-// owner write permission), f<hex> (file), x<hex> (file with an execute bit).
-func treeString(dir string) string {
+// owner write permission), f<hex> (file), x<hex> (file with an execute bit), l<hex> (symbolic link and
+// its target, with workdir written $WORK and rundir written $RUN).  Links are not followed.
+func treeString(dir string) string { return treeStringIn(dir, dir, "") }
+
+func treeStringIn(dir, workdir, rundir string) string {
 	var ents []string
 	filepath.WalkDir(dir, func(p string, d fs.DirEntry, err error) error {
 		if err != nil || p == dir {
@@ -338,6 +352,15 @@ func treeString(dir string) string {
 				h = "-"
 			}
 			ents = append(ents, rel+":"+k+h)
+		case info.Mode()&fs.ModeSymlink != 0:
+			tg, _ := os.Readlink(p)
+			if workdir != "" {
+				tg = strings.ReplaceAll(tg, workdir, "$WORK")
+			}
+			if rundir != "" {
+				tg = strings.ReplaceAll(tg, rundir, "$RUN")
+			}
+			ents = append(ents, rel+":l"+hex.EncodeToString([]byte(tg)))
 		default:
 			ents = append(ents, rel+":other")
 		}
@@ -345,6 +368,25 @@ func treeString(dir string) string {
 	})
 	sort.Strings(ents)
 	return "[" + strings.Join(ents, ",") + "]"
+}
+
+// modesString: "rel:perm" of every entry below dir that is not a symbolic link, sorted.
+func modesString(dir string) string {
+	var ents []string
+	filepath.WalkDir(dir, func(p string, d fs.DirEntry, err error) error {
+		if err != nil || p == dir {
+			return nil
+		}
+		rel, _ := filepath.Rel(dir, p)
+		info, err := d.Info()
+		if err != nil || info.Mode()&fs.ModeSymlink != 0 {
+			return nil
+		}
+		ents = append(ents, fmt.Sprintf("%s:%o", rel, info.Mode().Perm()))
+		return nil
+	})
+	sort.Strings(ents)
+	return strings.Join(ents, ",")
 }
 
 func runChild(jobPath string) {
@@ -371,6 +413,10 @@ func runChild(jobPath string) {
 	}
 	if job.Kind == "deadline" {
 		runDeadlineChild(&job)
+		return
+	}
+	if job.Kind == "cleanup" {
+		runCleanupChild(&job)
 		return
 	}
 	res := runBatchChild(&job, time.Time{})
@@ -455,7 +501,8 @@ func runBatchChild(job *Job, deadline time.Time) *ChildResult {
 				}
 			})
 		}
-		tree := treeString(env.WorkDir)
+		tree := treeStringIn(env.WorkDir, env.WorkDir, job.Dir)
+		setupModes := modesString(env.WorkDir)
 		var ino uint64
 		if rf, err := os.Open(filepath.Dir(env.WorkDir)); err == nil {
 			if st, err := rf.Stat(); err == nil {
@@ -474,6 +521,7 @@ func runBatchChild(job *Job, deadline time.Time) *ChildResult {
 		o.HaveSetup = true
 		o.SetupEnv = append([]string{}, env.Vars...)
 		o.SetupTree = tree
+		o.SetupModes = setupModes
 		o.Regs = append(o.Regs, regs...)
 		col.mu.Unlock()
 		if s.SetupErr {
@@ -489,6 +537,16 @@ func runBatchChild(job *Job, deadline time.Time) *ChildResult {
 			data, err := hex.DecodeString(strings.TrimSuffix(args[1], "x"))
 			ts.Check(err)
 			ts.Check(os.WriteFile(ts.MkAbs(args[0]), data, 0o666))
+		},
+		"rofile": func(ts *testscript.TestScript, neg bool, args []string) {
+			// a file that is made read-only (as the files of the module cache are)
+			if len(args) != 2 {
+				ts.Fatalf("usage: rofile path hexdata")
+			}
+			data, err := hex.DecodeString(strings.TrimSuffix(args[1], "x"))
+			ts.Check(err)
+			ts.Check(os.WriteFile(ts.MkAbs(args[0]), data, 0o666))
+			ts.Check(os.Chmod(ts.MkAbs(args[0]), 0o444))
 		},
 		"mkdirro": func(ts *testscript.TestScript, neg bool, args []string) {
 			if len(args) != 1 {
@@ -567,10 +625,11 @@ func runBatchChild(job *Job, deadline time.Time) *ChildResult {
 			b, err := os.ReadFile(out)
 			ts.Check(err)
 			ts.Check(json.Unmarshal(b, &pr))
-			tree := treeString(wd)
+			tree := treeStringIn(wd, wd, job.Dir)
+			modes := modesString(wd)
 			col.mu.Lock()
 			o := col.get(name)
-			o.Probes = append(o.Probes, ProbeObs{Pid: pr.Pid, Cwd: pr.Cwd, Env: pr.Env, Tree: tree})
+			o.Probes = append(o.Probes, ProbeObs{Pid: pr.Pid, Cwd: pr.Cwd, Env: pr.Env, Tree: tree, Modes: modes})
 			col.mu.Unlock()
 		},
 	}
